@@ -38,6 +38,9 @@ pub struct Wrap {
 }
 type BoxFut<T> = Pin<Box<dyn Future<Output = T>>>;
 impl Wrap {
+    pub fn new(src: Penelope, lazy: bool) -> Self {
+        Wrap { st: Rc::new(RefCell::new(AppState::single("D", src))), lazy }
+    }
     fn go<T: 'static>(&self, f: impl FnOnce(&mut AppState) -> T + 'static) -> BoxFut<T> {
         let st = self.st.clone();
         if self.lazy {
@@ -506,7 +509,7 @@ pub fn run(ops: &str, annot: &str, imp: &str) {
                 run_case(&mut b, id, body, &mut out);
             }
             k => {
-                let mut c = Wrap { st: Rc::new(RefCell::new(AppState::single("D", src))), lazy: k == "lazy" };
+                let mut c = Wrap::new(src, k == "lazy");
                 let id = block_on(c.init("D".to_string())).unwrap().backtest_id;
                 let mut b = block_on(UistBrokerBuilder::new().with_client(c, id).with_trade_costs(costs).build());
                 run_case(&mut b, id, body, &mut out);
